@@ -1,6 +1,7 @@
 package rules
 
 import (
+	"os"
 	"go/constant"
 	"go/token"
 	"go/types"
@@ -335,6 +336,50 @@ func positiveOnSuccess(c *core.Ctx, fn *ssa.Function, res int, depth int) posSum
 		}
 	}
 	if n == 0 {
+		return positiveOnSuccessPaths(c, fn, res, errIdx, depth)
+	}
+	return out
+}
+
+// pathLits: while a result is judged along one entry→return path (single-exit functions with named results), the
+// branch literals of that path count as guards.
+var pathLits []an.Lit
+
+// positiveOnSuccessPaths is positiveOnSuccess for functions whose results are merged before a common return: every
+// entry→return path is followed, the results are read along the path, and the path's own branch conditions guard.
+func positiveOnSuccessPaths(c *core.Ctx, fn *ssa.Function, res, errIdx, depth int) posSummary {
+	paths, err := an.DecisionPaths(fn, 256)
+	if err != nil {
+		return posSummary{why: "no successful return (and paths not enumerable: " + err.Error() + ")"}
+	}
+	out := posSummary{kind: posYes}
+	n := 0
+	for _, p := range paths {
+		if p.Ret == nil {
+			continue
+		}
+		if errIdx >= 0 && !isNilConst(p.OnPath(p.Ret.Results[errIdx])) {
+			continue
+		}
+		n++
+		saved := pathLits
+		pathLits = p.Lits
+		s := valuePositive(c, p.Ret, p.OnPath(p.Ret.Results[res]), depth)
+		pathLits = saved
+		switch s.kind {
+		case posUnknown:
+			return posSummary{why: an.Pos(c, p.Ret) + ": " + s.why}
+		case posIfArg:
+			if out.kind == posIfArg && out.arg != s.arg {
+				return posSummary{why: "depends on two parameters"}
+			}
+			out.kind, out.arg = posIfArg, s.arg
+		}
+		if out.why == "" || s.kind == posIfArg {
+			out.why = s.why
+		}
+	}
+	if n == 0 {
 		return posSummary{why: "no successful return"}
 	}
 	return out
@@ -421,6 +466,20 @@ func valuePositive(c *core.Ctx, at ssa.Instruction, v ssa.Value, depth int) posS
 		sgn := constant.Sign(k.Value)
 		if (bo.Op == token.LEQ && sgn >= 0 && !g.Polarity) || (bo.Op == token.LSS && sgn > 0 && !g.Polarity) || (bo.Op == token.GTR && sgn >= 0 && g.Polarity) || (bo.Op == token.GEQ && sgn > 0 && g.Polarity) {
 			return posSummary{kind: posYes, why: "guarded by " + an.D().Of(bo) + " = " + sprintf("%v", g.Polarity) + " (" + an.Pos(c, g.If) + ")"}
+		}
+	}
+	for _, l := range pathLits {
+		bo, ok := l.Cond.(*ssa.BinOp)
+		if !ok || stripAllocs(bo.X) != v {
+			continue
+		}
+		k, isK := bo.Y.(*ssa.Const)
+		if !isK || k.Value == nil {
+			continue
+		}
+		sgn := constant.Sign(k.Value)
+		if (bo.Op == token.LEQ && sgn >= 0 && !l.Val) || (bo.Op == token.LSS && sgn > 0 && !l.Val) || (bo.Op == token.GTR && sgn >= 0 && l.Val) || (bo.Op == token.GEQ && sgn > 0 && l.Val) {
+			return posSummary{kind: posYes, why: "on this path " + an.D().Of(bo) + " = " + sprintf("%v", l.Val)}
 		}
 	}
 	switch x := v.(type) {
@@ -640,15 +699,35 @@ func c14(c *core.Ctx, r *core.Report) {
 		// ramp: float division by the ramp duration is guarded by duration >= unit > 0
 		ramp := c.MustFn("internal/trigger/ramp", "CalculateRampRate")
 		okRamp := false
-		for _, b := range ramp.Blocks {
-			if iff, ok := b.Instrs[len(b.Instrs)-1].(*ssa.If); ok {
-				if bo, ok := iff.Cond.(*ssa.BinOp); ok && bo.Op == token.LSS && an.D().Of(bo.X) == "$duration" && strings.HasSuffix(an.D().Of(bo.Y), "#1") {
-					// true branch returns an error
-					for _, in := range b.Succs[0].Instrs {
-						if ret, ok := in.(*ssa.Return); ok && !isNilConst(ret.Results[1]) {
-							okRamp = true
-						}
-					}
+		var rampDur *ssa.Parameter
+		for _, p := range ramp.Params {
+			if isDuration(p.Type()) {
+				rampDur = p
+			}
+		}
+		// a test rejecting `duration < unit` (or `duration <= 0`), in the function or in a validation helper, where unit
+		// is the unit of a parsed rate (positive on success, see above)
+		for _, t := range rejectingTests(ramp, 3) {
+			x, y, op := t.X, t.Y, t.Op
+			if os.Getenv("F1DEBUG") != "" {
+				println("RT", an.D().Of(t.Cond), op.String(), an.D().Of(x.V), an.D().Of(y.V))
+			}
+			if an.Strip(y.V) == ssa.Value(rampDur) {
+				x, y = y, x
+				op = map[token.Token]token.Token{token.LSS: token.GTR, token.LEQ: token.GEQ, token.GTR: token.LSS, token.GEQ: token.LEQ}[op]
+			}
+			if rampDur == nil || an.Strip(x.V) != ssa.Value(rampDur) {
+				continue
+			}
+			if k, isK := an.Strip(y.V).(*ssa.Const); isK && k.Value != nil {
+				if (op == token.LEQ && constant.Sign(k.Value) >= 0) || (op == token.LSS && constant.Sign(k.Value) > 0) {
+					okRamp = true
+				}
+				continue
+			}
+			if ex, isEx := an.Strip(y.V).(*ssa.Extract); isEx && (op == token.LSS || op == token.LEQ) {
+				if call, isCall := ex.Tuple.(*ssa.Call); isCall && an.Callee(call) == pr && ex.Index == 1 {
+					okRamp = true
 				}
 			}
 		}
